@@ -380,6 +380,81 @@ def ob_dispatch(kind, name):
 # ---------------------------------------------------------------------------------------------
 
 
+def replay_operator_relations():
+    """Native (floats), all four Helmholtz boundary operators between two DIFFERENT grids (stretched / rotated octahedron vs tetrahedron) and on one grid:
+    the operator from A to B is the transpose of the operator from B to A (single layer, hypersingular; double <-> adjoint double), k -> -conj k conjugates,
+    and the operator for k = eps + i w tends to the modified Helmholtz operator for w as eps -> 0."""
+    import warnings
+
+    import bempp_cl.api as api
+    from bempp_cl.api.operators.boundary import helmholtz as H, modified_helmholtz as M
+    from vlib import symgrid as SG, zoo as Z
+
+    warnings.simplefilter("ignore")
+    v1, e1 = SG.octa()
+    v2, e2 = SG.tetra()
+    c, s_ = np.cos(0.6), np.sin(0.6)
+    R = np.array([[c, -s_, 0], [s_, c, 0], [0, 0, 1.0]])
+    gA = SG.make_grid(v1, e1)
+    gB = SG.make_grid(R @ (np.array([[1.4], [0.8], [1.1]]) * v2) + np.array([[3.2], [0.4], [-0.5]]), e2)
+    par = Z.params(3, 3)
+    problems, worst = [], 0.0
+
+    class Raised(Exception):
+        pass
+
+    def dense(op):
+        try:
+            return np.asarray(Z.dense(op))
+        except Exception as ex:  # noqa  (a well-formed operator between two grids must assemble)
+            raise Raised("%s: %s" % (type(ex).__name__, str(ex)[:120]))
+
+    for (ga, gb), tag in (((gA, gB), "two grids"), ((gA, gA), "one grid")):
+        pa, pb = api.function_space(ga, "P", 1), api.function_space(gb, "P", 1)
+        try:
+            H.hypersingular(pa, pb, pb, 1.3 + 0.4j, parameters=par).weak_form()
+            H.hypersingular(pb, pa, pa, 1.3 + 0.4j, parameters=par).weak_form()
+        except Exception as ex:  # noqa
+            problems.append("hypersingular [%s] raises %s: %s" % (tag, type(ex).__name__, str(ex)[:120]))
+            continue
+        for k in (1.3 + 0.4j, 0.8):
+            rel = {
+                "single layer symmetric": (dense(H.single_layer(pa, pb, pb, k, parameters=par)), dense(H.single_layer(pb, pa, pa, k, parameters=par)).T),
+                "hypersingular symmetric": (dense(H.hypersingular(pa, pb, pb, k, parameters=par)), dense(H.hypersingular(pb, pa, pa, k, parameters=par)).T),
+                "adjoint double = transposed double": (dense(H.adjoint_double_layer(pa, pb, pb, k, parameters=par)), dense(H.double_layer(pb, pa, pa, k, parameters=par)).T),
+                "hypersingular(-conj k) = conj": (dense(H.hypersingular(pa, pb, pb, -np.conj(k), parameters=par)), np.conj(dense(H.hypersingular(pa, pb, pb, k, parameters=par)))),
+            }
+            for name, (x, y) in rel.items():
+                e = float(np.abs(x - y).max() / max(1e-300, np.abs(y).max()))
+                # two grids: the regular tensor rule is symmetric in test / trial, the relations hold to rounding; one grid: the Duffy rules are not symmetric in
+                # the two elements, the relations hold up to the singular quadrature error (3e-5 .. 1e-3 at order 3); conjugation is exact in both cases
+                tol = 1e-10 if (tag == "two grids" or "conj" in name) else 5e-3
+                if tag == "two grids" or "conj" in name:
+                    worst = max(worst, e)
+                if e > tol:
+                    problems.append("%s [%s, k=%s]: %.2e" % (name, tag, k, e))
+        w = 0.9
+        for name, hf, mf in (("single_layer", H.single_layer, M.single_layer), ("double_layer", H.double_layer, M.double_layer),
+                             ("adjoint_double_layer", H.adjoint_double_layer, M.adjoint_double_layer), ("hypersingular", H.hypersingular, M.hypersingular)):
+            x = dense(hf(pa, pb, pb, 1e-9 + 1j * w, parameters=par))
+            y = dense(mf(pa, pb, pb, w, parameters=par))
+            e = float(np.abs(x - y).max() / np.abs(y).max())
+            worst = max(worst, e)
+            if e > 1e-7:
+                problems.append("%s(1e-9 + i w) vs modified(w) [%s]: %.2e" % (name, tag, e))
+    return {"violates": bool(problems), "problems": problems, "worst": worst}
+
+
+def ob_operator_relations():
+    r = replay_operator_relations()
+    if r["violates"]:
+        return violated("Helmholtz operator relations fail at matrix level: %s" % "; ".join(r["problems"][:4]), witness={"problems": r["problems"]}, signature="operator-relations",
+                        replay={"callable": "checks.c05:replay_operator_relations", "kwargs": {}, "confirmed": True})
+    from vlib.framework import held
+
+    return held("symmetry / adjointness / conjugation / limit relations between two grids and on one grid: worst %.1e" % r["worst"])
+
+
 def main():
     run = Run("C05", "proof")
     run.explanation = ("Every Helmholtz / modified Helmholtz Green's-function kernel of numba_kernels.py is executed as plain Python "
@@ -417,6 +492,8 @@ def main():
     for name in POTENTIAL:
         run.under_contract(getattr(HP, name))
         run.add("operators.potential.helmholtz.%s::dispatch" % name, "post", ob_dispatch, "potential", name)
+    run.add("operators.relations[two grids + one grid, matrices]", "bounded", ob_operator_relations)
+    run.bound("matrix-level relations: octahedron vs a stretched, rotated, shifted tetrahedron, P1 spaces, orders (3, 3)")
     run.assume("analytic: |e^z - 1 - z| <= |z|^2 e^{|z|}/2 and its integration against |phi||psi| (Taylor clause of C05) -- not mechanised; "
                "the code-dependent content (helmholtz kernel == laplace kernel * e^{ikr}(1-ikr)^{0/1}) is proved")
     run.assume("x != y (r > 0) in every kernel identity; the kernels are singular there")
